@@ -183,6 +183,13 @@ class Thing:
         return 1234567
 
 
+class RaisesKeyError:
+    """A defined value whose evaluation fails with KeyError."""
+
+    def __call__(self):
+        raise KeyError('inner-name')
+
+
 def make_value(spec):
     t = spec[0]
     if t == 'str':
@@ -199,6 +206,11 @@ def make_value(spec):
         return tuple(spec[1])
     if t == 'thing':
         return Thing(spec[1])
+    if t == 'raises-keyerror':
+        return RaisesKeyError()
+    if t == 'tmpl-undef':
+        from DocumentTemplate import HTML
+        return HTML('t<dtml-var inner_undefined_name>')
     raise ValueError(t)
 
 
@@ -231,6 +243,10 @@ def expected(case, order):
     if case['value'][0] == 'undefined':
         if 'missing' in o:
             return o['missing']
+        return KeyError
+    if case['value'][0] in ('raises-keyerror', 'tmpl-undef'):
+        # the name is defined: missing= does not apply, the failure of its
+        # evaluation is the caller's to see
         return KeyError
     v = make_value(case['value'])
     if 'null' in o and (v is None or (not v and v != 0)):
@@ -425,6 +441,7 @@ def strategy():
         st.floats(-1e6, 1e6, allow_nan=False).map(
             lambda f: ['float', round(f, 3)]),
         st.just(['none']), st.just(['str', '']), st.just(['list', []]),
+        st.just(['raises-keyerror']), st.just(['tmpl-undef']),
         st.just(['int', 0]), st.just(['undefined']),
         text.map(lambda s: ['thing', s]), st.just(['list', [1, 2]]))
     mods = st.lists(st.sampled_from(MODS), max_size=5, unique=True)
@@ -471,7 +488,7 @@ def nontrivial(case):
 def plan(tier, seed):
     shards = [dict(kind='subsets', r=r) for r in range(0, 13)]
     shards.append(dict(kind='order'))
-    n = 500 if tier == 'quick' else 12000
+    n = 2000 if tier == 'quick' else 15000
     for i in range(12):
         shards.append(dict(kind='random', seed=seed * 1000 + i, n=n))
     return shards
